@@ -235,6 +235,7 @@ func c04Exec(dir string, p *c04Payload, dry bool) *c04Outcome {
 	var obs *Observation
 	ex := Simulate(p.Sched, plan, c04MaxTicks, func() error {
 		var err error
+		opts.FinalPasses = w.FinalPasses
 		obs, err = RunPipeline(cfg, w.Params, opts)
 		return err
 	})
